@@ -46,6 +46,7 @@ CHECKS = {
         "rule": _SEM_RULE + "Non-trivial (C01): >= 2 stage jobs and at least one of map call / disabled modifier / projection / sub-pipeline; distinct by hash(program, schedule).",
         "assumptions": _SEM_ASSUME,
         "units": [U("props/run", "TestRunSemantics", (700, 14), (12000, 15), env={"VERIF_STATS_PROP": "C01"}),
+                  U("props/run", "TestNestedMapsJobs", (400, 2), (8000, 4), env={"VERIF_STATS_PROP": "C01"}),
                   U("props/run", "TestE2Run", (60, 6), (1500, 8))],
         "floors": {"quick": {"map-call:array": 200, "map-call:map": 80, "disabled-true": 150, "projection": 300, "sub-pipeline": 300, "split-stage": 300, "map-source:dynamic": 60, "e2-run": 250}},
     },
@@ -61,6 +62,7 @@ CHECKS = {
         "rule": _SEM_RULE + "Non-trivial (C02): at some point >= 2 jobs were pending and a job other than the oldest was finished first, or a dependency crosses a pipeline boundary, or forks are expanded at run time. Interrupted runs (TestInterruptOrder): the same invariants at every job start of runs in which the pipestance object is abandoned 1-3 times with jobs in flight (queued, alive, alive with outputs / stage defs written but no completion marker, finished unnoticed, dead after writing outputs) and re-attached; non-trivial: the interruption fell inside the run.",
         "assumptions": _SEM_ASSUME,
         "units": [U("props/run", "TestRunSemantics", (700, 14), (12000, 15), env={"VERIF_STATS_PROP": "C02"}),
+                  U("props/run", "TestNestedMapsJobs", (400, 2), (8000, 4), env={"VERIF_STATS_PROP": "C02"}),
                   U("props/run", "TestInterruptOrder", (200, 6), (4000, 8)),
                   U("props/run", "TestE2Run", (60, 6), (1500, 8))],
         "floors": {"quick": {"e2-run": 250, "dep-crosses-pipeline": 300, "dynamic-forks": 60, "preflight": 100, "fate:alive-after-outs": 300}},
@@ -76,6 +78,7 @@ CHECKS = {
         "rule": _SEM_RULE + "Non-trivial (C03): a mapped call of size != 1, a call disabled at run time, a map over an empty collection, or a split returning != 1 chunks.",
         "assumptions": _SEM_ASSUME,
         "units": [U("props/run", "TestRunSemantics", (700, 14), (12000, 15), env={"VERIF_STATS_PROP": "C03"}),
+                  U("props/run", "TestNestedMapsJobs", (400, 2), (8000, 4), env={"VERIF_STATS_PROP": "C03"}),
                   U("props/run", "TestE2Run", (60, 6), (1500, 8))],
         "floors": {"quick": {"e2-run": 250, "disabled-true": 150, "map-over-empty": 30, "chunks:0": 100, "chunks:11": 50}},
     },
